@@ -47,7 +47,7 @@ func (c *C19Case) NTKey() string {
 			}
 		}
 		switch s.Op {
-		case "Slice", "T", "Sum", "At", "SetAt", "Repeat", "TensorMul", "Reshape":
+		case "Slice", "T", "Sum", "At", "SetAt", "Repeat", "RepeatReuse", "SafeT", "TensorMul", "Reshape":
 			owned = true
 		}
 	}
@@ -456,6 +456,74 @@ func (c *C19Case) Run() string {
 						dst.Buf.E[j], _ = binop("Add", dArr.E[k], want[k])
 					}
 				}
+			case "SafeT":
+				m := pick(st.I)
+				if m == nil || len(m.Shape) < 2 || len(w.pop) >= maxPop {
+					note = "SafeT(skipped)"
+					return
+				}
+				perms := allPermsCached(len(m.Shape))
+				p := cloneIntsNN(perms[abs(first(st.Ints))%len(perms)]) // index 0 is the identity, given explicitly
+				o := own("axes", cloneIntsNN(p))
+				owneds = append(owneds, o)
+				r, err := m.T.SafeT(o.s...)
+				note = fmt.Sprintf("%s.SafeT%v", m.name, p)
+				if err != nil {
+					stepErr = note + " refused: " + err.Error()
+					return
+				}
+				a := m.arr()
+				nm := w.add(r, m.DT, &mBuf{E: a.E}, iota(len(a.E)), m.Shape)
+				if isIdentity(p) || prod(m.Shape) == 1 {
+					inheritPending(nm, m) // a faithful copy: what is pending on the source is pending on it
+				} else {
+					// the copy presents the permuted array; its UT() gives back the source's logical array
+					pa := a.Permute(p)
+					im := Arr{Shape: m.Shape, E: make([]interface{}, len(a.E))}
+					for k := range im.E {
+						im.E[k] = k
+					}
+					im = im.Permute(p)
+					nm.preIdx, nm.preShape = nm.Idx, cloneInts(m.Shape)
+					nm.Idx = make([]int, len(im.E))
+					for k := range im.E {
+						nm.Idx[k] = im.E[k].(int)
+					}
+					nm.Shape = pa.Shape
+				}
+				nm.strides = cloneInts(r.Strides())
+				note = nm.name + "=" + note
+			case "RepeatReuse":
+				m := pick(st.I)
+				if m == nil || len(m.Shape) == 0 || len(w.pop) >= maxPop || m.preIdx != nil {
+					note = "RepeatReuse(skipped)"
+					return
+				}
+				axis := abs(st.J) % len(m.Shape)
+				reps := make([]int, m.Shape[axis])
+				for i := range reps {
+					reps[i] = 1 + abs(first(st.Ints)+i)%2
+				}
+				if inF32(&C10Case{Op: "Repeat", Ops: []Opnd{{Shape: m.Shape}}, Axis: axis, Repeats: reps}) {
+					note = "RepeatReuse(skipped: F32b)"
+					return
+				}
+				want, _ := repeatModel(m.arr(), axis, reps)
+				reuse := tensor.New(tensor.Of(m.DT.T), tensor.WithShape(want.Shape...))
+				o := own("repeats", reps)
+				owneds = append(owneds, o)
+				res, err := tensor.RepeatReuse(m.T, reuse, axis, o.s...)
+				note = fmt.Sprintf("RepeatReuse(%s,%d,%v)", m.name, axis, o.snap)
+				if err != nil {
+					note += "=refused"
+					return
+				}
+				if mm := compareAt(res, want, eqVal); mm != "" {
+					stepErr = note + ": " + mm
+					return
+				}
+				nm := w.addFresh(res.(*tensor.Dense), m.DT)
+				note = nm.name + "=" + note
 			case "Sum":
 				m := pick(st.I)
 				if m == nil || len(m.Shape) == 0 || len(w.pop) >= maxPop {
@@ -745,7 +813,7 @@ func (w *c19World) invariant(named []*mTensor, owneds []*owned, si int, note str
 
 // ---------------------------------------------------------------- generator
 
-var c19Ops = []string{"New", "New", "Slice", "Slice", "T", "T", "UT", "Transpose", "RollAxis", "Reshape", "Clone", "Materialize", "Arith", "Arith", "Arith", "Sum", "Sum", "At", "SetAt", "Repeat", "TensorMul", "ReturnTensor", "ReturnTensor", "UsePool", "DontUsePool", "GC"}
+var c19Ops = []string{"New", "New", "Slice", "Slice", "T", "T", "UT", "UT", "Transpose", "RollAxis", "Reshape", "Clone", "Materialize", "SafeT", "SafeT", "Arith", "Arith", "Arith", "Sum", "Sum", "At", "SetAt", "Repeat", "RepeatReuse", "TensorMul", "ReturnTensor", "ReturnTensor", "UsePool", "DontUsePool", "GC"}
 
 func genC19(rt *rapid.T, minLen, maxLen int) *C19Case {
 	n := rapid.IntRange(minLen, maxLen).Draw(rt, "len")
@@ -777,7 +845,7 @@ func TestC19(t *testing.T) {
 		c := genC19(rt, 5, 40)
 		for i := range c.Steps {
 			if i >= 2 && rapid.IntRange(0, 2).Draw(rt, "bias") == 0 {
-				c.Steps[i].Op = rapid.SampledFrom([]string{"RollAxis", "UT", "T", "ReturnTensor", "New", "Slice", "Transpose", "Clone"}).Draw(rt, "bop")
+				c.Steps[i].Op = rapid.SampledFrom([]string{"RollAxis", "UT", "T", "ReturnTensor", "New", "Slice", "Transpose", "Clone", "SafeT", "Reshape", "RepeatReuse"}).Draw(rt, "bop")
 			}
 		}
 		return c
